@@ -39,6 +39,8 @@ def project(log, sc, tid):
             elif isinstance(lat, list):
                 lat = lat[n - 1] if n - 1 < len(lat) else (lat[-1] if lat else None)
             ev.append({"ev": "ping_sent", "t": t, "cid": e["cid"], "data": e["data"], "n": n, "lat": -1 if lat is None else int(lat)})
+        elif k == "app_send":
+            ev.append({"ev": "app_send", "t": t, "ok": e["ok"], "cls": e["cls"], "delivered": e["delivered"]})
         elif k == "tclose":
             ev.append({"ev": "tclose", "t": t, "cid": e["cid"] if e["cid"] is not None else -1})
         elif k == "run_ret":
